@@ -95,9 +95,6 @@ def _static_root():
             f.write(bytes(range(48, 48 + 40)))
         os.utime(p, (1_600_000_000, 1_600_000_000))
         _sroot['d'] = d
-        import atexit
-        import shutil
-        atexit.register(shutil.rmtree, d, True)
     return _sroot['d']
 
 
@@ -312,7 +309,7 @@ def work_growth(res, a):
     core.add_sample(res, {'growth_first_kind': KINDS[a][0], 'sequences': NK + 1, 'repetitions': [2, 4, 8]})
 
 
-def work(spec):
+def _work(spec):
     kind = spec[0]
     res = core.new_result()
     c = res['counters']
@@ -400,7 +397,7 @@ def liveness(seq, n):
     return sum(1 for r in refs if r() is not None), half, full
 
 
-def replay(case):
+def _replay(case):
     if case['kind'] == 'carry-over':
         hist = case['hist']
         om, app, out = build(hist)
@@ -432,3 +429,24 @@ def replay(case):
         return (f'histories starting with {KINDS[first][0]}: the retained state (application + module state incl. traceback lengths) '
                 f'keeps producing new states, per level {s.levels}, no fixpoint within depth {depth}')
     return None
+
+
+def _drop_static_root():
+    import shutil
+    d = _sroot.pop('d', None)
+    if d:
+        shutil.rmtree(d, ignore_errors=True)
+
+
+def work(spec):
+    try:
+        return _work(spec)
+    finally:
+        _drop_static_root()
+
+
+def replay(case):
+    try:
+        return _replay(case)
+    finally:
+        _drop_static_root()
